@@ -10,7 +10,9 @@
 // ops (db cases):
 //
 //	series <h|b|hb> <labels>           -> ok         (declares series k = number of earlier series lines)
-//	build <0|1>                        -> ok blocks=<0|1>   (EnableSharding flag; block series are compacted into a block)
+//	build <0|1|2>                      -> ok blocks=<0|1>   (0: EnableSharding off; 1: on; 2: on + out-of-order window with
+//	                                      OOO samples on half of the head series, so that db.Querier goes through the
+//	                                      HeadAndOOO readers; block series are compacted into a block)
 //	restart                            -> ok
 //	sel <head|block|both> <q|c> <n> <all|eq:<name>:<value>|neq:<name>:<value>>
 //	                                   -> u=<l> s=<l0>|…|<l(n-1)> x=<l>   |   err <class>
@@ -158,7 +160,8 @@ func tmpRoot() string {
 	return ""
 }
 
-func (e *env) build(sharding bool) (string, error) {
+func (e *env) build(mode string) (string, error) {
+	sharding, ooo := mode != "0", mode == "2"
 	dir, err := os.MkdirTemp(tmpRoot(), "verif-shard-")
 	if err != nil {
 		return "", err
@@ -169,6 +172,9 @@ func (e *env) build(sharding bool) (string, error) {
 	o.WALSegmentSize = 128 * 1024
 	o.StripeSize = 512
 	o.EnableSharding = sharding
+	if ooo {
+		o.OutOfOrderTimeWindow = 100000
+	}
 	e.opts = o
 	if err := e.open(); err != nil {
 		return "", err
@@ -184,6 +190,21 @@ func (e *env) build(sharding bool) (string, error) {
 	}
 	if _, err := e.appendPhase("|h|hb|", headT0); err != nil {
 		return "", err
+	}
+	if ooo {
+		app := e.db.Appender(context.Background())
+		for i, s := range e.series {
+			if s.place == "b" || i%2 == 1 {
+				continue
+			}
+			if _, err := app.Append(0, s.ls, headT0-100-int64(i%5), float64(-i)); err != nil {
+				app.Rollback()
+				return "", err
+			}
+		}
+		if err := app.Commit(); err != nil {
+			return "", err
+		}
 	}
 	return fmt.Sprintf("ok blocks=%d", len(e.db.Blocks())), nil
 }
@@ -357,7 +378,7 @@ func runCase(c *h.Ctx, ops []string) {
 					out = "err already-built"
 					return
 				}
-				r, err := e.build(f[1] == "1")
+				r, err := e.build(f[1])
 				if err != nil {
 					out = errClass(err)
 				} else {
@@ -592,7 +613,10 @@ func genDbCase(c *h.Ctx, r *h.Rng) []string {
 		c.Count("series:" + place)
 	}
 	sharding := !r.Chance(6)
-	if sharding {
+	if sharding && r.Chance(30) {
+		ops = append(ops, "build 2")
+		c.Count("db:ooo")
+	} else if sharding {
 		ops = append(ops, "build 1")
 	} else {
 		ops = append(ops, "build 0")
